@@ -1,5 +1,6 @@
 rc_target("c02_map", flavour="asan-dbg")
-plan("C02", [T("c02_map", 4000, 50000)], min_nt=200,
+rc_target("c02_libhash", flavour="asan")
+plan("C02", [T("c02_map", 4000, 50000), T("c02_libhash", 4000, 50000)], min_nt=200,
      rule="stateful command sequences against a reference map",
      technique="model-based property testing (rapidcheck)",
      level_text="tbd", assumptions=[])
